@@ -372,3 +372,144 @@ Theorem C05_l_namedb_spec : forall (prog : list laction) (q : path),
   l_namedb prog q = true <-> l_named prog q.
 Proof. exact l_namedb_spec. Qed.
 Print Assumptions C05_l_namedb_spec.
+
+(* ====================================================================================
+   "... is reported on stderr": the rendering of the failures into the Logger.
+
+   Model/SaveLog.v   report_one / report_all: every entry (kind, path) of w_stderr is one call
+                     Logger.TechErrorf(path, "<Cannot write|Cannot overwrite with autofixed
+                     content|Cannot clear executable bits>: %s", err) (Model/Logger.v tech_error);
+                     stderr_bytes / stdout_bytes = every byte the SeparatorWriter of that stream
+                     accepted (passed on, or still in its line buffer); tech_line / error_line =
+                     escapePrintable("ERROR: " + path + ": " + msg + "\n"); sep_pending = the
+                     blank line a SeparatorWriter in state "separator wanted" puts in front
+                     (never the case for stderr in pkglint; kept so that the statements hold for
+                     ALL logger states); at_line_start = no partial line buffered, no separator
+                     pending (true of the initial writer, and again after every TechErrorf).
+   ==================================================================================== *)
+From PV Require Import Model.Escape Model.Logger Model.SaveLog Proofs.SaveLog.
+
+(* TechErrorf, for ALL logger states (any suppressDiag/suppressExpl, counters, writer
+   states), any location and message.  tech_error has no `opts` argument at all -- no
+   option (--only, -q, -g, --source, --explain, --autofix, --show-autofix) can be read;
+   `o` and `werror` (-Werror) are quantified only to say so.  Everything but the stderr
+   writer is untouched (so is the exit status); the stderr writer accepts exactly the ERROR
+   line, drops nothing, and has flushed everything to the underlying stream afterwards. *)
+Theorem C05_tech_error_stream : forall (o : opts) (werror : bool) (l : logger) (loc msg : str),
+  let l' := Model.Logger.tech_error l loc msg in
+  l' = set_err l (l_err l') /\
+  l_out l' = l_out l /\ stdout_bytes l' = stdout_bytes l /\
+  l_errors l' = l_errors l /\ l_warnings l' = l_warnings l /\ l_notes l' = l_notes l /\
+  l_suppress_diag l' = l_suppress_diag l /\ l_suppress_expl l' = l_suppress_expl l /\
+  exit_status werror l' = exit_status werror l /\
+  stderr_bytes l' = stderr_bytes l ++ sep_pending (l_err l) ++ tech_line loc msg /\
+  (exists rest, tech_line loc msg = [69; 82; 82; 79; 82; 58; 32] ++ rest) /\
+  at_line_start (l_err l') /\ sw_state (l_err l') <> 1 /\
+  sw_out (l_err l') = stderr_bytes l ++ sep_pending (l_err l) ++ tech_line loc msg /\
+  (at_line_start (l_err l) -> sw_out (l_err l') = sw_out (l_err l) ++ tech_line loc msg).
+Proof. exact tech_error_stream. Qed.
+Print Assumptions C05_tech_error_stream.
+
+Theorem C05_at_line_start_initial : at_line_start new_sw /\ at_line_start (l_err new_logger).
+Proof. exact (conj at_line_start_new_sw at_line_start_new_sw). Qed.
+Print Assumptions C05_at_line_start_initial.
+
+(* location and message printable ASCII (tab, newline allowed): the line is the plain text *)
+Theorem C05_tech_line_printable : forall (loc msg : str),
+  Forall (fun b => xprint b = true) loc -> Forall (fun b => xprint b = true) msg ->
+  tech_line loc msg =
+  [69; 82; 82; 79; 82; 58; 32] ++ (loc ++ (if nonempty_list loc then [58; 32] else [])) ++ msg ++ [10].
+Proof. exact tech_line_printable. Qed.
+Print Assumptions C05_tech_line_printable.
+
+(* the fault theorem joined with the Logger: for every program, tree, fault plan, every
+   logger state l0, every error text: if the failing call was reached, stderr has grown;
+   stdout, the counters, the exit status and the suppress flags are as before; the bytes
+   added to stderr are exactly the ERROR lines of the entries of w_stderr, in order (after
+   the pending separator, if any); each entry's line occurs in them; and when l0's stderr
+   writer is at a line start, all of it has reached the underlying stream. *)
+Theorem C05_save_failure_reported_on_stderr : forall (s : state) (prog : list action) (k : nat) (fl : fault)
+    (o : opts) (werror : bool) (l0 : logger) (detail : errkind * path -> str),
+  let w := run prog (init_world s (Some (k, fl))) in
+  let l := report_all l0 (w_stderr w) detail in
+  ((k < w_count w)%nat -> stderr_bytes l <> stderr_bytes l0) /\
+  stdout_bytes l = stdout_bytes l0 /\ l_out l = l_out l0 /\
+  l_errors l = l_errors l0 /\ l_warnings l = l_warnings l0 /\ l_notes l = l_notes l0 /\
+  exit_status werror l = exit_status werror l0 /\
+  l_suppress_diag l = l_suppress_diag l0 /\ l_suppress_expl l = l_suppress_expl l0 /\
+  stderr_bytes l = stderr_bytes l0 ++ (match w_stderr w with [] => [] | _ :: _ => sep_pending (l_err l0) end)
+                                   ++ report_lines (w_stderr w) detail /\
+  (forall e, In e (w_stderr w) ->
+     exists a b, stderr_bytes l = stderr_bytes l0 ++ a ++ error_line e (detail e) ++ b) /\
+  ((k < w_count w)%nat -> at_line_start (l_err l)) /\
+  (at_line_start (l_err l0) ->
+     at_line_start (l_err l) /\ sw_out (l_err l) = sw_out (l_err l0) ++ report_lines (w_stderr w) detail).
+Proof. exact save_failure_reported_on_stderr. Qed.
+Print Assumptions C05_save_failure_reported_on_stderr.
+
+(* the same for any list of failures *)
+Theorem C05_report_all_on_stderr : forall (o : opts) (werror : bool) (l0 : logger)
+    (es : list (errkind * path)) (detail : errkind * path -> str),
+  let l := report_all l0 es detail in
+  (es <> [] -> stderr_bytes l <> stderr_bytes l0) /\
+  stdout_bytes l = stdout_bytes l0 /\ l_out l = l_out l0 /\
+  l_errors l = l_errors l0 /\ l_warnings l = l_warnings l0 /\ l_notes l = l_notes l0 /\
+  exit_status werror l = exit_status werror l0 /\
+  l_suppress_diag l = l_suppress_diag l0 /\ l_suppress_expl l = l_suppress_expl l0 /\
+  stderr_bytes l = stderr_bytes l0 ++ (match es with [] => [] | _ :: _ => sep_pending (l_err l0) end)
+                                   ++ report_lines es detail /\
+  (forall e, In e es ->
+     exists a b, stderr_bytes l = stderr_bytes l0 ++ a ++ error_line e (detail e) ++ b) /\
+  (es <> [] -> at_line_start (l_err l)) /\
+  (at_line_start (l_err l0) ->
+     at_line_start (l_err l) /\ sw_out (l_err l) = sw_out (l_err l0) ++ report_lines es detail).
+Proof. exact report_all_on_stderr. Qed.
+Print Assumptions C05_report_all_on_stderr.
+
+(* reporting through Logf(Error, tmpName, "", ...) instead is NOT such a report: with
+   suppressDiag set (left set by Logger.Relevant after an Autofix.Apply whose diagnostic is
+   not selected by --only: reached by `log_run`) nothing is written anywhere; otherwise the
+   line goes to stdout and is counted as an error (exit status 1). *)
+Theorem C05_logf_report_refuted :
+  (* suppressDiag set: the failure is reported nowhere *)
+  (forall (o : opts) (l : logger) (e : errkind * path) (detail : str),
+     l_suppress_diag l = true ->
+     stderr_bytes (report_one_logf o l e detail) = stderr_bytes l /\
+     stdout_bytes (report_one_logf o l e detail) = stdout_bytes l) /\
+  (* such a state is reached: --autofix --only foo, after one Autofix.Apply of a diagnostic "bar" *)
+  (exists (o : opts) (l : logger) (e : errkind * path) (detail : str),
+     l = log_run o [ex_fix_event] /\ l_suppress_diag l = true /\
+     stderr_bytes (report_one_logf o l e detail) = stderr_bytes l /\
+     stdout_bytes (report_one_logf o l e detail) = stdout_bytes l /\
+     stderr_bytes (report_one l e detail) = stderr_bytes l ++ error_line e detail /\
+     error_line e detail = ex_error_text) /\
+  (* suppressDiag clear: the line goes to stdout and counts as an error *)
+  (forall (o : opts) (l : logger) (e : errkind * path) (detail : str),
+     l_suppress_diag l = false ->
+     stderr_bytes (report_one_logf o l e detail) = stderr_bytes l /\
+     stdout_bytes (report_one_logf o l e detail) <> stdout_bytes l /\
+     l_errors (report_one_logf o l e detail) = l_errors l + 1) /\
+  (exists (o : opts) (l : logger) (e : errkind * path) (detail : str),
+     l_suppress_diag l = false /\
+     stderr_bytes (report_one_logf o l e detail) = stderr_bytes l /\
+     stdout_bytes (report_one_logf o l e detail) = stdout_bytes l ++ ex_error_text /\
+     l_errors (report_one_logf o l e detail) = l_errors l + 1 /\
+     exit_status false l = 0 /\ exit_status false (report_one_logf o l e detail) = 1).
+Proof. exact logf_report_refuted. Qed.
+Print Assumptions C05_logf_report_refuted.
+
+Example C05_tech_error_example :
+  let l := Model.Logger.tech_error new_logger ex_tmp ([67; 97; 110; 110; 111; 116; 32; 119; 114; 105; 116; 101; 58; 32] ++ ex_detail) in
+  stderr_bytes l = ex_error_text /\ sw_out (l_err l) = ex_error_text /\ stdout_bytes l = [] /\
+  l_errors l = 0 /\ exit_status true l = 0.
+Proof. exact tech_error_example. Qed.
+Print Assumptions C05_tech_error_example.
+
+Example C05_report_one_example :
+  report_one new_logger ex_entry ex_detail =
+  Model.Logger.tech_error new_logger ex_tmp ([67; 97; 110; 110; 111; 116; 32; 119; 114; 105; 116; 101; 58; 32] ++ ex_detail) /\
+  error_line ex_entry ex_detail = ex_error_text /\
+  stderr_bytes (report_one ex_suppressed ex_entry ex_detail) = ex_error_text /\
+  stdout_bytes (report_one ex_suppressed ex_entry ex_detail) = [].
+Proof. exact report_one_example. Qed.
+Print Assumptions C05_report_one_example.
